@@ -503,6 +503,7 @@ def toSOp : Sexp → Option SCmd
   | .list [.atom "childs", r, k] => do pure (.steps [.child (← atomNat r) (← atomNat k)] false)
   | .list [.atom "childi", r, k] => do pure (.steps [.child (← atomNat r) (← atomNat k)] false)
   | .list [.atom "childn", r, k] => do pure (.steps [.child (← atomNat r) (← atomNat k)] false)
+  | .list [.atom "childr", r, k] => do pure (.steps [.child (← atomNat r) (← atomNat k)] false)
   | .list [.atom tag, r, .list [.atom "sets", i, .list (.atom "s" :: vs)]] => do
     -- slice assignment = the element assignments in order; a failing one keeps the earlier writes
     if tag != "mut" && tag != "bad" then none
@@ -647,6 +648,7 @@ def toPOp : Sexp → Option POp
   | .list [.atom "nav", g] => (atomNat g).map .nav
   | .list [.atom "vbl"] => some .vbl
   | .list [.atom "eqself"] => some .eqself
+  | .list [.atom "eqother"] => some .eqself
   | .list [.atom "fork"] => some .fork
   | .list [.atom "fread", k] => (atomNat k).map .fread
   | .list [.atom "sub", i, op] => do pure (.sub (← atomNat i) (← toHOp op))
@@ -796,6 +798,9 @@ def runCase (xs : List Sexp) : Option String :=
     pure (runHist t (Spec.zeroVal t) (← ops.mapM toHOp))
   | .atom "store" :: t :: v :: ops => do pure (runStore (← toTy t) (← toVal v) (← ops.mapM toSOp))
   | .atom "storel" :: t :: v :: ops => do pure (runStore (← toTy t) (← toVal v) (← ops.mapM toSOp) true)
+  -- the same store history with the root view's backing served lazily by a root-keyed source
+  | .atom "storev" :: t :: v :: ops => do pure (runStore (← toTy t) (← toVal v) (← ops.mapM toSOp))
+  | .atom "storevl" :: t :: v :: ops => do pure (runStore (← toTy t) (← toVal v) (← ops.mapM toSOp) true)
   | .atom "partial" :: t :: v :: .list (.atom "pos" :: gs) :: ops => do
     pure (runPartial (← toTy t) (← toVal v) (← gs.mapM atomNat) (← ops.mapM toPOp))
   -- the PARTIAL tree served lazily by a root-keyed source: the partial-tree semantics (`k.i`)
